@@ -1,0 +1,48 @@
+//go:build verif
+
+package main
+
+// Contracts of the dispatcher (read by /verif/govc; comment-only file behind the build tag).
+//
+// The contracts of the request handlers in internal/server are stated about what the handler is called with. They
+// reach the wire only if the dispatcher hands every notification and request over unchanged: "forward" states exactly
+// that (one call of the target with the parameters in order, its results returned; decided on the SSA form).
+
+//@ forward (*serverDispatcher).DidOpen server.(*Server).DidOpen
+//@   props C01
+//@ forward (*serverDispatcher).DidChange server.(*Server).DidChange
+//@   props C01 C11
+//@ forward (*serverDispatcher).DidClose server.(*Server).DidClose
+//@   props C01
+//@ forward (*serverDispatcher).DidSave server.(*Server).DidSave
+//@   props C01 C11
+//@ forward (*serverDispatcher).DidChangeConfiguration server.(*Server).DidChangeConfiguration
+//@   props C19
+//@ forward (*serverDispatcher).Completion server.(*Server).Completion
+//@   props C16 C08
+//@ forward (*serverDispatcher).Definition server.(*Server).Definition
+//@   props C09 C08
+//@ forward (*serverDispatcher).References server.(*Server).References
+//@   props C09 C08
+//@ forward (*serverDispatcher).Rename server.(*Server).Rename
+//@   props C09 C08
+//@ forward (*serverDispatcher).PrepareRename server.(*Server).PrepareRename
+//@   props C09 C08
+//@ forward (*serverDispatcher).Hover server.(*Server).Hover
+//@   props C20 C08
+//@ forward (*serverDispatcher).Formatting server.(*Server).Format
+//@   props C04 C05
+//@ forward (*serverDispatcher).FoldingRanges server.(*Server).FoldingRanges
+//@   props C08
+//@ forward (*serverDispatcher).DocumentLink server.(*Server).DocumentLink
+//@   props C08
+//@ forward (*serverDispatcher).DocumentSymbol server.(*Server).DocumentSymbol
+//@   props C08
+//@ forward (*serverDispatcher).Symbols server.(*Server).WorkspaceSymbol
+//@   props C08 C15
+//@ forward (*serverDispatcher).SemanticTokensFull server.(*Server).SemanticTokensFull
+//@   props C17
+//@ forward (*serverDispatcher).SemanticTokensFullDelta server.(*Server).SemanticTokensFullDelta
+//@   props C17
+//@ forward (*serverDispatcher).SemanticTokensRange server.(*Server).SemanticTokensRange
+//@   props C17
